@@ -46,7 +46,24 @@ AllLimitStepsOK ==
         ELSE LimitStepOK(k, Src(n), old, new)
 SkipFirstCountOK == \A n \in 0..MaxN, new \in 0..MaxP : LimitStepOK("skip", Src(n), -1, new)
 
+(* Filter / FilterMap: sources over values with both outcomes of the predicate, every applicable input *)
+FKeep(v) == AlgoKeep(v)
+FId(v) == AlgoId(v)
+FMap(v) == AlgoMap(v)
+FSrcs == UNION {[1..n -> 1..2] : n \in 0..MaxN}
+FInputsFor(s) ==
+    LET n == Len(s) IN
+    {DClear} \cup {DPushFront(v) : v \in {5, 6}} \cup {DPushBack(v) : v \in {5, 6}}
+    \cup (IF n > 0 THEN {DPopFront, DPopBack} ELSE {})
+    \cup {DAppend(vs) : vs \in {<<>>, <<5>>, <<6>>, <<5, 6>>, <<6, 5, 6>>}}
+    \cup {DReset(vs) : vs \in {<<>>, <<6>>, <<6, 6>>, <<5, 6>>, <<6, 5>>}}
+    \cup {DInsert(i, v) : i \in 0..n, v \in {5, 6}} \cup {DSet(i, v) : i \in 0..(n - 1), v \in {5, 6}}
+    \cup {DRemove(i) : i \in 0..(n - 1)} \cup {DTruncate(i) : i \in 0..(n - 1)}
+AllFilterStepsOK ==
+    \A s \in FSrcs : \A d \in FInputsFor(s) : FilterStepOK(s, d, FKeep, FId) /\ FilterStepOK(s, d, FKeep, FMap)
+
 ASSUME AllDiffStepsOK
+ASSUME AllFilterStepsOK
 ASSUME SkipNoneOK
 ASSUME AllLimitStepsOK
 ASSUME SkipFirstCountOK
@@ -60,6 +77,13 @@ PrintLimitCases ==
     \A k \in Kinds3, n \in 0..MaxN, old \in 0..MaxP, new \in 0..MaxP :
         PrintT(<<"B", ToJson([kind |-> k, s |-> Src(n), p |-> old, d |-> DClear, new |-> new,
                               expect |-> AlgoLimit(k, old, new, Src(n))])>>)
+PrintFilterCases ==
+    \A s \in FSrcs : \A d \in FInputsFor(s) :
+        /\ PrintT(<<"B", ToJson([kind |-> "filter", s |-> s, p |-> 0, d |-> d, new |-> -1,
+                                 expect |-> FilterStep(FilterStateOf(s, FKeep), d, FKeep, FId).out])>>)
+        /\ PrintT(<<"B", ToJson([kind |-> "filter_map", s |-> s, p |-> 0, d |-> d, new |-> -1,
+                                 expect |-> FilterStep(FilterStateOf(s, FKeep), d, FKeep, FMap).out])>>)
 ASSUME PrintDiffCases
 ASSUME PrintLimitCases
+ASSUME PrintFilterCases
 =============================================================================
